@@ -433,13 +433,28 @@ func (in *Inferer) expr(x fo.Expr, e *env) *Ty {
 		}
 		return con("slice", t)
 	case *fo.RecLit:
+		tv := map[string]*Ty{}
 		for i, f := range x.Rec.Fields {
-			in.unify(in.expr(x.Fields[i], e), in.fromFo(f.T, map[string]*Ty{}))
+			in.unify(in.expr(x.Fields[i], e), in.fromFo(f.T, tv))
+		}
+		if x.Rec.Generic {
+			// a generic record declared with one type parameter T: a fresh instantiation per literal
+			if _, ok := tv["T"]; !ok {
+				tv["T"] = in.fresh()
+			}
+			return con("rec:"+x.Rec.Name, tv["T"])
 		}
 		return con("rec:" + x.Rec.Name)
 	case *fo.Ctor:
+		tv := map[string]*Ty{}
 		if x.Arg != nil {
-			in.unify(in.expr(x.Arg, e), in.fromFo(x.Union.Cases[x.Case].Payload, map[string]*Ty{}))
+			in.unify(in.expr(x.Arg, e), in.fromFo(x.Union.Cases[x.Case].Payload, tv))
+		}
+		if x.Union.Generic {
+			if _, ok := tv["T"]; !ok {
+				tv["T"] = in.fresh()
+			}
+			return con("uni:"+x.Union.Name, tv["T"])
 		}
 		return con("uni:" + x.Union.Name)
 	case *fo.Call:
@@ -517,10 +532,16 @@ func GoSignature(name string, params []string, s *Scheme) string {
 				r = " " + r
 			}
 			return "func(" + strings.Join(ps, ", ") + ")" + r
-		case strings.HasPrefix(t.Con, "rec:"):
-			return strings.TrimPrefix(t.Con, "rec:")
-		case strings.HasPrefix(t.Con, "uni:"):
-			return strings.TrimPrefix(t.Con, "uni:")
+		case strings.HasPrefix(t.Con, "rec:") || strings.HasPrefix(t.Con, "uni:"):
+			n := t.Con[4:]
+			if len(t.Args) > 0 {
+				var ps []string
+				for _, a := range t.Args {
+					ps = append(ps, goT(a))
+				}
+				n += "[" + strings.Join(ps, ", ") + "]"
+			}
+			return n
 		}
 		return "?"
 	}
